@@ -2999,6 +2999,8 @@ class FuncPow(ValueFunc):
         if args.get("y").isInt() and args.get("x").isInt():
             x = args.getInt("x").value
             y = args.getInt("y").value
+            if y >= 0:
+                return ValueInt(x ** y)
             return ValueInt(int(math.pow(x, y)))
         else:
             x = args.get("x").asDecimal().value
